@@ -276,6 +276,77 @@ def body_own_report(ctx):
     ctx.outcome('own-report')
 
 
+SEC_MODES = ['ValueError', 'NameError', 'sys.exit', 'Syntax', 'Indent', 'UntermStr', 'Bare:KeyError', 'InFunc', 'Finally',
+             'AfterPrint', 'Recursion', 'BadStr', 'Depth:101', 'FalsyLen']
+SEC_PROLOGUES = ["a = 1\n", "", "a = 1\nb = 2\nc = 3\n"]
+
+
+def body_sections(ctx):
+    """The failing code is one section of a file graded section by section (independent sections): the failure is
+    contained and located on the student's own line of the *file*, for code that fails while running and for code
+    that does not compile alike; a later, healthy section then runs cleanly."""
+    from pedal.source.sections import separate_into_sections, next_section
+    mode = SEC_MODES[ctx.choose(len(SEC_MODES), 'mode')]
+    pro = SEC_PROLOGUES[ctx.choose(len(SEC_PROLOGUES), 'prologue')]
+    which = ctx.choose(2, 'section') + 1          # the failing code is section 1 or section 2
+    threaded = bool(ctx.choose(2, 'threaded'))
+    tracer = ('none', 'native')[ctx.choose(2, 'tracer')]
+    code = sc.MODES[mode] + "\n"
+    parts = [pro, "ok1 = 1\nok1b = 2\n", "ok2 = 1\n", "ok3 = 1\n"]
+    parts[which] = code
+    full = parts[0] + "".join("##### Part %d\n%s" % (i, parts[i]) for i in (1, 2, 3))
+    first_line = full[:full.index(code)].count("\n") if which == 1 else \
+        (parts[0] + "##### Part 1\n" + parts[1] + "##### Part 2\n").count("\n")
+    case = {'mode': mode, 'section': which, 'prologue_lines': pro.count("\n"), 'threaded': threaded, 'tracer': tracer,
+            'file': full}
+    ctx.observe(repr((mode, which, pro, threaded, tracer)))
+    ctx.mark_nontrivial(repr((mode, which, pro, threaded, tracer)))
+    ctx.set_sample(case)
+    rcls, rline = sc.reference_outcome(code, 'answer.py')
+    sc.cmds.clear_report()
+    sc.cmds.contextualize_report(sc.Submission(files={'answer.py': full}, main_file='answer.py', main_code=full))
+    sb = sc.sb_cmds.get_sandbox()
+    sb.threaded = threaded
+    sb.tracer_style = tracer
+    sb.allowed_time = 20
+    snap = sc.GlobalState()
+    try:
+        separate_into_sections(independent=True)
+        sc.sb_cmds.run()
+        for _ in range(which):
+            next_section()
+            n0 = len(sc.MAIN_REPORT.feedback)
+            ctx.step(('run section', mode))
+            sc.sb_cmds.run()
+        failed = [f for f in sc.MAIN_REPORT.feedback[n0:] if f.category == 'runtime']
+        exc = sc.sb_cmds.get_exception()
+        next_section()
+        n1 = len(sc.MAIN_REPORT.feedback)
+        sc.sb_cmds.run()
+        later = [f for f in sc.MAIN_REPORT.feedback[n1:] if f.category == 'runtime']
+        later_exc = sc.sb_cmds.get_exception()
+    except BaseException as e:   # noqa
+        ctx.fail({'symptom': 'exception escaped into the grader', 'exception': type(e).__name__, 'mode': mode,
+                  'entry': 'section', 'threaded': threaded}, case=case, message=str(e)[:200])
+        snap.force()
+        return
+    if snap.diff():
+        snap.force()
+    if len(failed) != 1 or exc is None:
+        ctx.fail({'symptom': 'not exactly one runtime feedback', 'count': len(failed), 'mode': mode, 'threaded': threaded,
+                  'entry': 'section'}, case=case)
+        return
+    if rline is not None:
+        got = failed[0].location.line if failed[0].location is not None else None
+        if got != first_line + rline:
+            ctx.fail({'symptom': 'feedback not located on the student line', 'mode': mode, 'entry': 'section',
+                      'threaded': threaded, 'tracer': tracer}, case=case, want=first_line + rline, got=got)
+    if later or later_exc is not None:
+        ctx.fail({'symptom': 'a healthy section run after a failing one reports a failure', 'mode': mode}, case=case,
+                 exception=repr(later_exc)[:80])
+    ctx.outcome('section:' + str(rcls))
+
+
 def bounds(tier):
     return {'pairs': '%d modes x %d entries, ordered pairs in one sandbox, threaded or not' % (len(PAIR_MODES), len(PAIR_ENTRIES)),
             'modes': len(MODE_NAMES), 'entries': ENTRIES, 'threaded': [False, True], 'tracers': TRACERS}
@@ -284,7 +355,9 @@ def bounds(tier):
 def phases(tier):
     own = Phase('own-report', body_own_report, setup=_setup, chunk=50, horizon_s=60,
                 describe='termination modes through run/call/evaluate with report=<caller-owned Report>')
-    return [own, Phase('terminations', body, setup=_setup, chunk=100, horizon_s=60,
+    sec = Phase('sections', body_sections, setup=_setup, chunk=50, horizon_s=60,
+                describe='the failing code as section 1 or 2 of a file graded by independent sections: file-relative line')
+    return [own, sec, Phase('terminations', body, setup=_setup, chunk=100, horizon_s=60,
                   describe='mode x entry x threaded x tracer, full product'),
             Phase('two-failures', body_pairs, setup=_setup, chunk=100, horizon_s=60,
                   describe='ordered pairs of failing executions in one sandbox')]
